@@ -987,6 +987,17 @@ def ival(env, x):
 
 @ghost()
 def truthy(env, x):
+    if isinstance(x, V):
+        if x.kind == "bool":
+            return x.d
+        if x.kind == "const":
+            return bool(x.d)
+        if x.kind == "int":
+            return x.d != 0
+    if isinstance(x, bool):
+        return x
+    if isinstance(x, z3.ExprRef) and z3.is_bool(x):
+        return x
     return T.F_truth(env.to_val(x))
 
 
